@@ -24,6 +24,12 @@ for cfg, prog in facts.load_many(list(facts.CONFIGS)).items():
         allp.add(f.path)
 json.dump(sorted(allp), open(os.path.join(os.path.dirname(os.path.abspath(__file__)), "sa", "ref_fns.json"), "w"), indent=0)
 print(len(allp), "function paths")
+cn = set()
+for cfg, prog in facts.load_many(list(facts.CONFIGS)).items():
+    for c in prog.raw["consts"]:
+        cn.add(c["path"])
+json.dump(sorted(cn), open(os.path.join(os.path.dirname(os.path.abspath(__file__)), "sa", "ref_constnames.json"), "w"), indent=0)
+print(len(cn), "constant names")
 from sa import rename as _rename
 rsig = {}
 for cfg, prog in facts.load_many(list(facts.CONFIGS)).items():
